@@ -131,3 +131,23 @@ Example out_dtype_kw_runs :
               = Ok ([OpTens rn3f 2], st')
     /\ a_data (rd st' 2) = [2; 3; 4] /\ a_dt (rd st' 2) = DF32.
 Proof. eexists; split; [vm_compute; reflexivity | split; vm_compute; reflexivity]. Qed.
+
+(* finding pspace-integer-space-truncates-float-results, on the legacy model:
+   true_divide by 2 on an integer power space: NumPy gives [1/2; 3/2], the
+   legacy interface (and the NumPy call on the element) give [0; 1] *)
+From Verif Require Import C17.Legacy.
+Definition Fhalf (d : dt) : dt := match d with DI64 | DI32 | DBool => DF64 | _ => d end.
+Definition tint : @ptree Q := PNode [PLeaf DI64 [1; 3]; PLeaf DI64 [5; 2]].
+Lemma legacy_int_truncates :
+  legacy1 castQ Fhalf (lop_f LHalf) tint = PNode [PLeaf DI64 [0; 1]; PLeaf DI64 [2; 1]]
+  /\ numpy1 Fhalf (lop_f LHalf) tint = PNode [PLeaf DF64 [1#2; 3#2]; PLeaf DF64 [5#2; 1]].
+Proof. split; vm_compute; reflexivity. Qed.
+Lemma legacy_vs_numpy_refuted :
+  exists t : @ptree Q, legacy1 castQ Fhalf (lop_f LHalf) t <> numpy1 Fhalf (lop_f LHalf) t.
+Proof.
+  exists tint. destruct legacy_int_truncates as [H1 H2]. rewrite H1, H2. discriminate.
+Qed.
+(* the guard of the positive theorem is satisfiable: float leaves *)
+Example dtype_preserved_example :
+  dtype_preserved Fhalf (PNode [PLeaf DF64 [1; 3]; PNode [PLeaf DF64 [5 : Q]]]).
+Proof. cbn. repeat split. Qed.
